@@ -353,7 +353,7 @@ def run(ctx):
     ctx.assumptions = ["vf/model/sigblockw.py implements the published v2/v3 layout (its reader re-encodes the v2/v3/v3.1 values of all shipped apksig APKs byte-exactly)",
                        "archives have >= 1 entry; blocks are well formed; flags compared by truth value",
                        "first pair with an id wins; duplicate flag = some id (any id) occurs more than once"]
-    n = 3200 if ctx.quick else 48000
+    n = 3200 if ctx.quick else 240000
     per = n // 16
     files = sorted(glob.glob(os.path.join(REPO, "tests/data/APK/apksig/*.apk")) + glob.glob(os.path.join(REPO, "tests/data/APK/*.apk")))
     ctx.run_shards(MOD, "shard", [[i, per] for i in range(16)], timeout=1500)
